@@ -15,12 +15,12 @@ PROP = "C07"
 PKG = "walletx"
 
 M_CFGS = {
-    "quick": ["WalletFund_quick_core.cfg", "WalletFund_quick_rs.cfg", "WalletFund_quick_rw.cfg"],
-    "thorough": ["WalletFund_mc_core.cfg", "WalletFund_mc_rs.cfg", "WalletFund_mc_rw.cfg"],
+    "quick": ["WalletFund_quick_core.cfg", "WalletFund_quick_rs.cfg", "WalletFund_quick_rw.cfg", "WalletFund_quick_mb.cfg"],
+    "thorough": ["WalletFund_mc_core.cfg", "WalletFund_mc_rs.cfg", "WalletFund_mc_rw.cfg", "WalletFund_quick_mb.cfg"],
 }
 R_CFGS = {
-    "quick": ["WalletFund_edges_q1.cfg", "WalletFund_edges_q2.cfg", "WalletFund_edges_q3.cfg"],
-    "thorough": ["WalletFund_edges_q1.cfg", "WalletFund_edges_q2.cfg", "WalletFund_edges_q3.cfg",
+    "quick": ["WalletFund_edges_q1.cfg", "WalletFund_edges_q2.cfg", "WalletFund_edges_q3.cfg", "WalletFund_edges_q4.cfg"],
+    "thorough": ["WalletFund_edges_q1.cfg", "WalletFund_edges_q2.cfg", "WalletFund_edges_q3.cfg", "WalletFund_edges_q4.cfg",
                  "WalletFund_edges_t3.cfg", "WalletFund_edges_t4.cfg", "WalletFund_edges_t5.cfg"],
 }
 ASSUMPTIONS = [
@@ -39,7 +39,7 @@ ASSUMPTIONS = [
 
 def leg_m(wd, tier):
     rs = []
-    with cf.ThreadPoolExecutor(max_workers=3) as ex:
+    with cf.ThreadPoolExecutor(max_workers=4) as ex:
         futs = [(c, ex.submit(vlib.run_tlc, wd, "MCWalletFund", c, 3 if tier == "quick" else 5, 1500)) for c in M_CFGS[tier]]
         for c, fu in futs:
             r = fu.result()
@@ -153,8 +153,20 @@ def build_paths(edges, rng, max_len, max_paths):
         paths.append(p)
     total = len(E)
     if max_paths and len(paths) > max_paths:
+        # sample; but every Redistribute/SplitUTXO call that is possible in an INITIAL state (the
+        # rare, structurally different results: single batch, several batches, partial success,
+        # failure) keeps one path that makes it
         rng.shuffle(paths)
-        paths = paths[:max_paths]
+        init_set = set(inits)
+        want = {j for j, (f, t, e) in enumerate(E) if f in init_set and e["act"]["op"] in ("Redist", "Split")}
+        keep, rest = [], []
+        for p in paths:
+            hit = want.intersection(p)
+            if hit:
+                want -= hit; keep.append(p)
+            else:
+                rest.append(p)
+        paths = (keep + rest)[:max(max_paths, len(keep))]
     cov = set()
     for p in paths:
         cov.update(p)
@@ -177,7 +189,7 @@ def leg_r(wd, tier, binary, verdict, stub="", cfgs=None, max_paths=None):
         max_paths = 260 if tier == "quick" else None
     all_paths = []
     stats = dict(states=0, edges=0, covered=0, graphs=len(cfgs), inits=0, tlc_states=0, tlc_transitions=0)
-    with cf.ThreadPoolExecutor(max_workers=3) as ex:
+    with cf.ThreadPoolExecutor(max_workers=4) as ex:
         futs = [(c, ex.submit(vlib.run_tlc, wd, "MCWalletFund", c, 1, 900)) for c in cfgs]
         for c, fu in futs:
             r = fu.result()
@@ -375,7 +387,7 @@ def run(tier):
         "exhaustive": False,
         "samples": vlib.trim_samples(rr["samples"] + tt["samples"], 3),
         "model": {"cfgs": M_CFGS[tier], "distinct_states": [m.distinct for m in ms], "transitions": [m.generated for m in ms],
-                  "bounds": "<= 3 initial outputs, <= 2-3 requests, <= 2 ticks, option sets {default-like, all-zero, tiny}; every interleaving and EVERY admissible selection within the bounds"},
+                  "bounds": "<= 3 initial outputs, <= 2-3 requests, <= 2 ticks, option sets {default-like, all-zero, tiny}; every interleaving and EVERY admissible selection within the bounds; multi-batch Redistribute (incl. partial success) with batch size 1 in the model"},
         "replay": {k: rr[k] for k in ("graphs", "inits", "states", "edges", "covered", "full", "paths", "steps", "onpath", "diverged", "skipped", "timing_dropped")},
         "replay_trace_validation": rr["tv"],
         "trace_validation": {"sequential": tt["seq"], "concurrent": tt["conc"]},
@@ -480,7 +492,8 @@ def selftest():
     ok2 &= corrupt("Release event (dropped hookless observation)", lambda e: e["op"] == "Release", lambda e: e.__setitem__("op", "Obs") or e.update(sp=0, conf=0, imm=0, unc=0, list=[]))
     # named deviations must violate the invariants in TLC
     ok3 = True
-    for cfg, inv in (("WalletFund_dev_views.cfg", "ViewsAgree"), ("WalletFund_dev_dup.cfg", "Conservation")):
+    for cfg, inv in (("WalletFund_dev_views.cfg", "ViewsAgree"), ("WalletFund_dev_dup.cfg", "Conservation"),
+                     ("WalletFund_dev_redist.cfg", "NoOrphanLocks")):
         x = vlib.run_tlc(wd, "MCWalletFund", cfg, workers=4, timeout=600)
         good3 = x.exit != 0 and x.violated == inv
         log("selftest 3 (%s: TLC reports %s violated: %s): %s" % (cfg, inv, x.violated, "ok" if good3 else "FAILED"))
